@@ -837,7 +837,11 @@ func (w *sxWorld) apply(toks []string) (obs string) {
 			break
 		}
 		w.nasync++
-		a := &sxAsync{tag: fmt.Sprintf("c%d", w.nasync), rec: &sxRec{hdr: http.Header{}, status: 1}, done: make(chan struct{})}
+		ctag := fmt.Sprintf("c%d", w.nasync)
+		if w.mode == "legacy" || w.mode == "noids" {
+			ctag = "c0" // (these worlds' model keeps no request counter: server-side closes are not told apart)
+		}
+		a := &sxAsync{tag: ctag, rec: &sxRec{hdr: http.Header{}, status: 1}, done: make(chan struct{})}
 		go func() {
 			defer close(a.done)
 			if err := target.Close(); err != nil {
@@ -1550,6 +1554,7 @@ func sxRunCase(t *testing.T, out *verifOut, cs string, ops []string, gen *sxGen,
 // POSTs whose handler stays blocked across later operations (several at once, also under one id), releases, ticks.
 func sxEphOps(rng *rand.Rand, mode string, es bool, n int) (ops []string, tags [][]string) {
 	minted, nslow, unk := 0, 0, 0
+	parked := map[int]string{} // slot -> name of the temporary session believed to be parked there
 	add := func(op string, t ...string) { ops = append(ops, op); tags = append(tags, t) }
 	ref := func() (string, string) {
 		switch r := rng.Intn(100); {
@@ -1571,6 +1576,24 @@ func sxEphOps(rng *rand.Rand, mode string, es bool, n int) (ops []string, tags [
 			add("fault "+f, sxFaultTags(f)...)
 			continue
 		}
+		if mode == "legacy" && len(parked) > 0 && rng.Intn(100) < 9 {
+			// the server closes a parked temporary session itself (one that is alone under its id)
+			cnt := map[string]int{}
+			for _, nm := range parked {
+				cnt[nm]++
+			}
+			var alone []string
+			for nm, c := range cnt {
+				if c == 1 {
+					alone = append(alone, nm)
+				}
+			}
+			sort.Strings(alone)
+			if len(alone) > 0 {
+				add("close "+alone[rng.Intn(len(alone))], "srvclose", "eph-"+mode)
+				continue
+			}
+		}
 		if nslow > 0 && rng.Intn(100) < 7 {
 			// the client of a parked POST goes away
 			add(fmt.Sprintf("abandon %d", 1+rng.Intn(nslow)), "abandon", "eph-"+mode)
@@ -1586,6 +1609,16 @@ func sxEphOps(rng *rand.Rand, mode string, es bool, n int) (ops []string, tags [
 			if rf == "-" && mode == "legacy" {
 				minted++
 			}
+			if kind == "slow" && (mode == "legacy" || rf == "-") {
+				nm := rf
+				if rf == "-" {
+					nm = fmt.Sprintf("s%d", minted)
+					if mode == "noids" {
+						nm = "e"
+					}
+				}
+				parked[nslow] = nm
+			}
 			add(fmt.Sprintf("post %s %s %s", rf, usr, kind), "post-"+kind, cls, "eph-"+mode)
 		case r < 57:
 			add(fmt.Sprintf("get %s %s", rf, usr), "get", cls, "eph-"+mode)
@@ -1598,6 +1631,7 @@ func sxEphOps(rng *rand.Rand, mode string, es bool, n int) (ops []string, tags [
 			if nslow > 0 {
 				k = 1 + rng.Intn(nslow+1)
 			}
+			delete(parked, k)
 			add(fmt.Sprintf("release %d", k), "release")
 		default:
 			add(fmt.Sprintf("tick %d", []int{1, 50, 100, 101}[rng.Intn(4)]), "tick-eph")
